@@ -146,6 +146,32 @@ fn random_mutants_still_valid(src: &mut Src, obs: &mut Obs) -> Res {
     }
 }
 
+/// acceptance must not depend on history: queries that the grammar lets through but the AST builder
+/// rejects (out-of-range integers, ill-typed calls, non-comparable functions) are parsed first
+fn random_valid_after_rejected(src: &mut Src, obs: &mut Obs) -> Res {
+    let n = 1 + src.below(3);
+    for _ in 0..n {
+        let bad = match src.below(6) {
+            0 => format!("$[?@.a == {}]", src.pick(&["9007199254740993", "-9007199254740993", "99999999999999999999"])),
+            1 => format!("$[{}]", src.pick(&["9007199254740992", "-9007199254740992"])),
+            2 => "$[?length(@.*) > 1]".to_string(),
+            3 => "$[?match(@.a,'x') == true]".to_string(),
+            4 => format!("$[?count({}) == 1 || @.b]", src.pick(&["1", "'a'", "length(@)"])),
+            _ => {
+                let q = gen_valid(src);
+                let t = render_spelled(src, &q);
+                mutate_chars(src, &t)
+            }
+        };
+        let _ = libx::parse(&bad);
+        let _ = libx::query_paths(&json!([1]), &bad);
+    }
+    obs.label("after-rejected-queries");
+    let q = gen_valid(src);
+    let s = render_spelled(src, &q);
+    must_accept(&s, Some(&q), obs, "sentence")
+}
+
 fn direct(case: &Value, obs: &mut Obs) -> Res {
     let s = case["query"].as_str().unwrap_or("");
     must_accept(s, None, obs, "regression file")
@@ -165,6 +191,7 @@ pub fn prop() -> Prop {
         subs: vec![
             Sub { name: "random-sentences", kind: Kind::Random { f: random_sentences, quick: 160_000, thorough: 3_200_000, len: 600 } },
             Sub { name: "random-doc-guided", kind: Kind::Random { f: random_doc_guided, quick: 64_000, thorough: 1_280_000, len: 500 } },
+            Sub { name: "random-valid-after-rejected", kind: Kind::Random { f: random_valid_after_rejected, quick: 160_000, thorough: 3_200_000, len: 900 } },
             Sub { name: "random-mutants-still-valid", kind: Kind::Random { f: random_mutants_still_valid, quick: 160_000, thorough: 3_200_000, len: 600 } },
         ],
         direct: Some(direct),
